@@ -21,9 +21,61 @@ def run(tier, seed):
             graphs[cfg] = ctx.model_check(cfg, required_actions=REQ)[1]
         ctx.replay(graphs[cfg], SpecialAdapter(RE, ZE, nphi, nth, scale, nz, sp), {"all"}, label=f"{cfg}/phi{nphi}/theta{nth}/x{scale}/negzero={nz}",
                    edge_budget=60000 if tier == "quick" else 300000)
+    dtype_part(ctx, tier)
     ctx.assumptions = ["the true bin is decided by integer predicates (x^2+y^2 vs squared edges, signs, |x| vs |y|, z^2 vs rho^2); points exactly on "
                        "an angular boundary are assigned like the real-number convention (left-closed sectors); accuracy of hypot/atan2 on "
                        "arbitrary reals is not decided by the model"]
     return ctx.finish("integer points in all quadrants/octants, on the axes, diagonals, the cone z = +-rho, the origin, on radial edges "
                       "(Pythagorean), with signed zeros and scalings; eight classes x entry paths facade / fill / fill_n / find_bin x raw or "
                       "already-transformed input; projections (class and marginal contents); wrong-dimensional input must be refused")
+
+
+def dtype_part(ctx, tier):
+    """The element type of the Cartesian input is no part of the point: a float32 (float16) array and the float64 array of the SAME
+    values must reach the same bin through every entry path - also for points a hair away from an axis, where the angle computed
+    in the narrow type would round across 0 / 2*pi."""
+    import numpy as np
+    from physt import special_histograms as S
+    r, z = np.array([0.0, 2.0, 5.0, 2.0 ** 30]), np.array([-3.0, 0.0, 2.0, 5.0])
+    phi, th = np.linspace(0, 2 * np.pi, 9), np.linspace(0, np.pi, 5)
+    classes = {"PolarHistogram": ([r, phi], 2), "AzimuthalHistogram": ([phi], 2), "RadialHistogram": ([r], 2), "SphericalHistogram": ([r, th, phi], 3),
+               "SphericalSurfaceHistogram": ([th, phi], 3), "CylindricalHistogram": ([r, phi, z], 3), "CylindricalSurfaceHistogram": ([phi, z], 3)}
+    big = 2.0 ** 24
+    pts2 = [(1.0, 1.0), (big, -1.0), (big, 1.0), (-big, -1.0), (-big, 1.0), (1.0, -big), (-1.0, big), (3.0, 4.0), (0.0, -2.0)]
+    pts3 = [p + (zz,) for p in pts2[:6] for zz in (1.0, -1.0)] + [(1.0, -2.0 ** -24, 1.0), (0.0, 0.0, 2.0)]
+    n = 0
+    for name, (bs, dim) in classes.items():
+        k = getattr(S, name)
+        pts = pts2 if dim == 2 else pts3
+        for dt in (np.float32, np.float16):
+            for p in pts:
+                a64 = np.array(p, dtype=np.float64)
+                an = a64.astype(dt)
+                if not np.array_equal(an.astype(np.float64), a64):
+                    continue            # not the same point in the narrow type
+                for path in ("find_bin", "fill", "fill_n", "transform"):
+                    out = []
+                    for arr in (a64, an):
+                        h = k(bs[0]) if len(bs) == 1 else k(bs)
+                        try:
+                            if path == "find_bin":
+                                res = h.find_bin(arr)
+                            elif path == "fill":
+                                res = h.fill(arr)
+                            elif path == "fill_n":
+                                h.fill_n(arr.reshape(1, -1))
+                                res = (np.asarray(h.frequencies).tolist(), float(h.missed) if h.ndim > 1 else (float(h.underflow), float(h.overflow)))
+                            else:
+                                res = np.asarray(k.transform(arr), dtype=np.float64).tolist()
+                        except Exception as ex:
+                            res = f"raised {type(ex).__name__}: {ex}"
+                        out.append(res if not isinstance(res, np.generic) else res.item())
+                    n += 1
+                    tag = f"ElementType/{name}/{np.dtype(dt).name}/{path}"
+                    ctx.tags[tag] = ctx.tags.get(tag, 0) + 1
+                    if repr(out[0]) != repr(out[1]):
+                        ctx.add_violation({"property": "C15", "spec": "PhystSpecial", "action": path, "tag": tag, "fields": ["ret"],
+                                           "detail": {"float64 input": repr(out[0]), f"{np.dtype(dt).name} input": repr(out[1])},
+                                           "call": {"class": name, "point": [repr(v) for v in p], "path": path}})
+    ctx.replayed += n
+    ctx.extra["element_type_fanout"] = {"calls_compared": n}
